@@ -405,8 +405,9 @@ class KernelX(Kernel):
                         total = None
                         if recv.dims is not None and len(recv.dims) == 1:
                             total = recv.dims[0]
-                        elif recv.dims is not None and len(shp.items) == 1:
-                            s = Lin.sym(fresh('size'))
+                        elif len(shp.items) == 1:
+                            # the flattened length is the array's element count: the same symbol as `<array>.size`
+                            s = Lin.sym(f'{recv.ident}.size')
                             st.facts.add_ge(s)
                             total = s
                         dims.append(total if (total is not None and len(shp.items) == 1) else self._fresh_dim(st, None))
